@@ -44,6 +44,10 @@ impl Schema { #[verifier::external_body] pub fn num_values(&self) -> usize { uni
 pub struct DataType { _p: () }
 #[verifier::external_body]
 pub fn null_bitmap_size(n: usize) -> usize { unimplemented!() }
+// which of compute_values' three results a vector is (facts established only by compute_values)
+pub uninterp spec fn is_new_values(v: Seq<DataType>) -> bool;
+pub uninterp spec fn is_changed_old_values(v: Seq<(u8, DataType)>) -> bool;
+pub uninterp spec fn is_all_old_values(v: Seq<DataType>) -> bool;
 
 #[verifier::external_body]
 pub struct TupleLayout { _p: () }
@@ -128,7 +132,8 @@ impl Tuple {
     #[verifier::external_body]
     pub fn extract_keys(&self, current: &TupleRef, schema: &Schema) -> TupleResult<Vec<DataType>> { unimplemented!() }
     #[verifier::external_body]
-    pub fn compute_values(&self, current: &TupleRef, modified: &Assignments, schema: &Schema) -> TupleResult<(Vec<DataType>, Vec<(u8, DataType)>, Vec<DataType>)> { unimplemented!() }
+    pub fn compute_values(&self, current: &TupleRef, modified: &Assignments, schema: &Schema) -> (r: TupleResult<(Vec<DataType>, Vec<(u8, DataType)>, Vec<DataType>)>)
+        ensures r matches Ok(t) ==> is_new_values(t.0@) && is_changed_old_values(t.1@) && is_all_old_values(t.2@) { unimplemented!() }
     // upper bound actually needed by the writes below: header + everything else
     #[verifier::external_body]
     pub fn calculate_new_tuple_size(keys: &Vec<DataType>, new_values: &Vec<DataType>, changed_values: &Vec<(u8, DataType)>, existing_deltas_size: usize, bitmap_size: usize) -> (r: usize)
@@ -136,6 +141,7 @@ impl Tuple {
     { unimplemented!() }
     #[verifier::external_body]
     pub fn write_null_bitmap(buffer: &mut [u8], offset: usize, values: &Vec<DataType>, bitmap_size: usize) -> (r: usize)
+        requires [C18:update.newest_null_flags_are_the_new_ones] is_new_values(values@),
         ensures keeps_prefix(old(buffer)@, final(buffer)@, offset as int), r >= offset,
     { unimplemented!() }
     #[verifier::external_body]
@@ -144,11 +150,15 @@ impl Tuple {
     { unimplemented!() }
     #[verifier::external_body]
     pub fn write_non_null_items(buffer: &mut [u8], cursor: usize, items: &Vec<DataType>) -> (r: TupleResult<usize>)
+        requires [C18:update.newest_values_are_the_new_ones] is_new_values(items@),
         ensures keeps_prefix(old(buffer)@, final(buffer)@, cursor as int), r matches Ok(c) ==> c >= cursor,
     { unimplemented!() }
     // the delta of the version being superseded: its number and ITS creator
     #[verifier::external_body]
     pub fn write_delta(buffer: &mut [u8], offset: usize, version: u8, xmin: TransactionId, changed_values: &Vec<(u8, DataType)>, all_old_values: &Vec<DataType>, bitmap_size: usize) -> (r: TupleResult<usize>)
+        requires
+            [C18:update.delta_restores_the_old_values] is_changed_old_values(changed_values@),
+            [C18:update.delta_null_flags_are_the_old_ones] is_all_old_values(all_old_values@),
         ensures keeps_prefix(old(buffer)@, final(buffer)@, offset as int),
             r matches Ok(c) ==> c >= offset && c <= old(buffer)@.len(),
     { unimplemented!() }
